@@ -201,10 +201,10 @@ def pick_text(rng, bg, thr, band):
 ALL_FEATURES = (
     "vars", "var-fallback", "var-undefined", "var-chain", "var-shared", "root-direct-color", "root-and-html",
     "important", "repeat-decl", "prop-case", "nesting", "bg-var", "keywords", "opaque-atrules", "vendor-hacks",
-    "star-hack", "non-ascii", "crlf", "bom", "cdo-cdc", "alpha-text", "comments", "no-color-rules", "odd-strings", "dup-root",
+    "star-hack", "non-ascii", "crlf", "bom", "cdo-cdc", "alpha-text", "comments", "no-color-rules", "odd-strings", "dup-root", "nested-root",
 )
 # features outside what the reference cascade of C08 models or what C08's statement quantifies over
-C09_ONLY = ("opaque-atrules", "vendor-hacks", "star-hack", "crlf", "bom", "cdo-cdc", "odd-strings", "dup-root")
+C09_ONLY = ("opaque-atrules", "vendor-hacks", "star-hack", "crlf", "bom", "cdo-cdc", "odd-strings", "dup-root", "nested-root")
 
 _SEL_FORMS = (".r%d", "#id%d", "a.x%d:hover", "div > p.k%d", "[data-x=\"%d\"]", "ul li.i%d", "h%d")
 _SEL_FORMS_NONASCII = (".r\u00e9%d", ".\u4e2d%d", "#\u00fc%d")
@@ -258,6 +258,12 @@ class SheetGen:
         self.thr = refs.target_ratio(premium=bool(settings.get("premium")))
         dbg = settings.get("default_bg")
         self.default_bg_rgb = refs.css_rgb(dbg if dbg is not None else "white") or (255, 255, 255)
+        if dbg is not None and dbg.startswith("var("):
+            # --default-bg given as a custom-property reference: most sheets define it (each its own colour)
+            m = refs._VAR_RE.match(dbg)
+            if m and rng.random() < 0.8:
+                self.default_bg_rgb = rand_rgb(rng)
+                self.vars.append((m.group(1), self.default_bg_rgb, spell(rng, self.default_bg_rgb, CSS_SPELLINGS)[0]))
 
     # -- helpers
     def selector(self):
@@ -414,10 +420,13 @@ class SheetGen:
                 items.append(self.colour_rule())
         # variable blocks
         blocks = []
-        if self.vars or "root-direct-color" in f:
+        if self.vars or "root-direct-color" in f or "dup-root" in f:
             names = [":root"]
-            if "root-and-html" in f:
-                names = r.choice(([":root", "html"], ["html", ":root"], ["html"]) + (([":root", ":root"],) if "dup-root" in f else ()))
+            if "dup-root" in f:
+                # the same selector more than once (palette tokens in one block, layout tokens in another)
+                names = r.choice(([":root", ":root"], ["html", "html"], [":root", "html", ":root"]))
+            elif "root-and-html" in f:
+                names = r.choice(([":root", "html"], ["html", ":root"], ["html"]))
             blocks = [{"t": "rule", "sel": s, "decls": []} for s in names]
             if "root-direct-color" in f:
                 for b in blocks:
@@ -438,9 +447,23 @@ class SheetGen:
                         r.choice((d, od))["imp"] = self.imp()
                 elif "repeat-decl" in f and r.random() < 0.15:
                     b["decls"].insert(b["decls"].index(d), {"p": name, "v": self.literal(rand_rgb(r)), "imp": ""})
+            if "dup-root" in f:
+                for b in blocks:
+                    for _ in range(r.randint(1, 2)):
+                        b["decls"].insert(r.randrange(len(b["decls"]) + 1), {"p": "--%s%d" % (r.choice(("gap", "radius", "font", "ink")), r.randrange(9)),
+                                                                              "v": r.choice(("4px", "1rem", "\"Inter\", sans-serif", "#123456")), "imp": ""})
+                    if "comments" in f and r.random() < 0.5:
+                        b["decls"].insert(r.randrange(len(b["decls"]) + 1), {"raw": r.choice(_COMMENTS)})
             for b in blocks:
                 self.decorate(b["decls"])
         items = self.wrap(items)
+        if "nested-root" in f:
+            # a :root / html rule inside @media (conditional tokens, e.g. a dark theme): not a top-level block
+            inner = {"t": "rule", "sel": r.choice((":root", "html")), "decls": [
+                {"p": "--c0", "v": self.literal(rand_rgb(r)), "imp": ""}, {"p": "--theme%d" % r.randrange(5), "v": self.literal(rand_rgb(r)), "imp": ""}]}
+            if r.random() < 0.5:
+                inner["decls"].append({"p": "color", "v": self.literal(rand_rgb(r)), "imp": ""})
+            items.insert(r.randrange(len(items) + 1), {"t": "at", "name": "media", "prelude": "(prefers-color-scheme: dark)", "items": [inner]})
         for b in blocks:
             pos = r.choice((0, 0, len(items), r.randrange(len(items) + 1)))
             items.insert(pos, b)
